@@ -19,15 +19,15 @@ import (
 // ordered registration list.
 
 type c18World struct {
-	mu      sync.Mutex
-	log     []string            // "I<n>" / "T<name>"
-	seenHdr map[string]string   // headers the transport saw
-	reqInfo []string            // method+URL the interceptors were called with
-	failID  int                 // interceptor id that must fail now (0 = none)
-	failErr error
-	depth   int                 // nested entries of the chain (recursion guard)
+	mu       sync.Mutex
+	log      []string          // "I<n>" / "T<name>"
+	seenHdr  map[string]string // headers the transport saw
+	reqInfo  []string          // method+URL the interceptors were called with
+	failID   int               // interceptor id that must fail now (0 = none)
+	failErr  error
+	depth    int // nested entries of the chain (recursion guard)
 	maxDepth int
-	counter int
+	counter  int
 }
 
 type c18Transport struct {
@@ -74,9 +74,10 @@ func (w *c18World) interceptor(id int) *network.Interceptor {
 }
 
 type c18Op struct {
-	kind string // Add, Remove, Clear, SetClient, Req
+	kind string // Add, Remove, Clear, SetClient, Req, Second
 	ids  []int  // interceptor ids for Add/Remove
-	arg  int    // client variant / verb
+	arg  int    // client variant / verb / how the second instance is created
+	inst int    // 0 = the first SimpleHTTP, 1 = the second one (created by a "Second" op; ignored before that)
 }
 
 func (o c18Op) String() string {
@@ -86,7 +87,15 @@ func (o c18Op) String() string {
 	case "SetClient":
 		return "SetHTTPClient(" + [...]string{"same", "fresh-nil-transport", "fresh-custom-transport", "first-client-again", "client-whose-transport-is-this-SimpleHTTP"}[o.arg] + ")"
 	case "Req":
+		if o.inst == 1 {
+			return "Request(" + c18Verbs[o.arg] + " through the second SimpleHTTP)"
+		}
 		return "Request(" + c18Verbs[o.arg] + ")"
+	case "Second":
+		return "second SimpleHTTP on " + [...]string{"the SAME http.Client", "its own http.Client"}[o.arg] + " (constructor given the same spare-capacity interceptor slice)"
+	}
+	if o.inst == 1 && (o.kind == "Add" || o.kind == "Remove") {
+		return fmt.Sprintf("%s%v on the second SimpleHTTP", o.kind, o.ids)
 	}
 	return o.kind
 }
@@ -107,8 +116,12 @@ func c18Run(c *core.Ctx, hist []c18Op, failPlan map[int]int) {
 		icp[id] = w.interceptor(id)
 	}
 	c1 := &http.Client{Transport: tA}
-	sh := network.NewSimpleHTTPWithClientAndInterceptors(c1)
-	api := network.NewSimpleAPIWithSimpleHTTP("http://example.test", sh)
+	// the constructor is handed a caller-owned slice with spare capacity (a second instance may be built from the same one)
+	base := make([]*network.Interceptor, 0, 8)
+	shs := []*network.SimpleHTTPDef{network.NewSimpleHTTPWithClientAndInterceptors(c1, base...), nil}
+	apis := []*network.SimpleAPIDef{network.NewSimpleAPIWithSimpleHTTP("http://example.test", shs[0]), nil}
+	models := [][]int{nil, nil}
+	sh, api := shs[0], apis[0]
 	var model []int
 	describe := func(upto int) string {
 		var p []string
@@ -122,7 +135,27 @@ func c18Run(c *core.Ctx, hist []c18Op, failPlan map[int]int) {
 	}
 	for i, op := range hist {
 		pv, where := core.Catch(func() {
+			cur := 0
+			if op.inst == 1 && shs[1] != nil {
+				cur = 1
+			}
+			if op.inst == 1 && shs[1] == nil && (op.kind == "Add" || op.kind == "Remove") {
+				return // interceptors 4..6 belong to the second instance, which does not exist yet
+			}
+			sh, api, model = shs[cur], apis[cur], models[cur]
+			defer func() { models[cur] = model }()
 			switch op.kind {
+			case "Second":
+				if shs[1] != nil {
+					return
+				}
+				cl := c1
+				if op.arg == 1 {
+					cl = &http.Client{Transport: tB}
+				}
+				shs[1] = network.NewSimpleHTTPWithClientAndInterceptors(cl, base...)
+				apis[1] = network.NewSimpleAPIWithSimpleHTTP("http://example.test", shs[1])
+				return
 			case "Add":
 				var ps []*network.Interceptor
 				for _, id := range op.ids {
@@ -201,42 +234,90 @@ func c18Run(c *core.Ctx, hist []c18Op, failPlan map[int]int) {
 				c.Eval(1)
 				c.Count("requests", 1)
 				c.CountMax("max.interceptors_on_a_request", int64(len(model)))
-				// expected log
-				var want []string
-				failedAt := -1
-				for k, id := range model {
-					want = append(want, fmt.Sprintf("I%d", id))
-					if failing != 0 && id == failing {
-						failedAt = k
-						break
+				// expected: the interceptors of the instance the request went through, each exactly once, in
+				// registration order, then exactly one transport call. When two instances are chained on one client the
+				// other instance's interceptors run as part of the chain too (each at most once, in their order); the
+				// designated failing interceptor (wherever it is registered) cuts the chain at its first occurrence.
+				mineSet, otherSet := map[string]bool{}, map[string]bool{}
+				var mineWant, otherWant []string
+				for _, id := range model {
+					mineSet[fmt.Sprintf("I%d", id)] = true
+					mineWant = append(mineWant, fmt.Sprintf("I%d", id))
+				}
+				if shs[1] != nil {
+					for _, id := range models[1-cur] {
+						otherSet[fmt.Sprintf("I%d", id)] = true
+						otherWant = append(otherWant, fmt.Sprintf("I%d", id))
 					}
 				}
-				if failedAt < 0 {
-					want = append(want, "T")
-				} else {
-					c.Count("requests.with_failing_interceptor", 1)
-				}
-				if strings.Join(log, " ") != strings.Join(want, " ") {
-					key := "chain:wrong-calls"
+				failName := fmt.Sprintf("I%d", failing)
+				fired := false
+				firedAt := -1
+				var mineGot, otherGot []string
+				transports := 0
+				for k, l := range log {
 					switch {
-					case len(log) > len(want)+len(model):
-						key = "chain:ran-more-than-once"
-					case failedAt >= 0 && len(log) > len(want):
-						key = "chain:continued-after-error"
+					case l == "T":
+						transports++
+						if k != len(log)-1 {
+							viol("chain:transport-not-last", i, "call log %v: the transport was not the last call", log)
+						}
+					case mineSet[l]:
+						mineGot = append(mineGot, l)
+					case otherSet[l]:
+						otherGot = append(otherGot, l)
+					default:
+						viol("chain:unregistered-interceptor-ran", i, "call log %v contains %s which is registered on neither instance (registered %v)", log, l, model)
 					}
-					viol(key, i, "call log %v, want %v (registered %v, failing interceptor %d)", log, want, model, failing)
+					if failing != 0 && l == failName && !fired {
+						fired, firedAt = true, k
+					}
 				}
-				if failedAt >= 0 {
+				isPrefix := func(got, want []string) bool {
+					if len(got) > len(want) {
+						return false
+					}
+					for k := range got {
+						if got[k] != want[k] {
+							return false
+						}
+					}
+					return true
+				}
+				if fired {
+					c.Count("requests.with_failing_interceptor", 1)
+					if firedAt != len(log)-1 {
+						viol("chain:continued-after-error", i, "call log %v: calls continued after interceptor %d returned an error", log, failing)
+					}
+					if transports != 0 {
+						viol("chain:transport-after-error", i, "call log %v: the transport was called although interceptor %d failed", log, failing)
+					}
+					if !isPrefix(mineGot, mineWant) || !isPrefix(otherGot, otherWant) {
+						viol("chain:wrong-calls", i, "call log %v (registered %v, other instance %v, failing interceptor %d)", log, mineWant, otherWant, failing)
+					}
 					if err == nil || !strings.Contains(err.Error(), "stub: interceptor failed") {
 						viol("error:not-surfaced", i, "interceptor %d failed but the caller got err=%v", failing, err)
 					}
 				} else {
+					if strings.Join(mineGot, " ") != strings.Join(mineWant, " ") {
+						key := "chain:wrong-calls"
+						if len(mineGot) > len(mineWant) {
+							key = "chain:ran-more-than-once"
+						}
+						viol(key, i, "call log %v: the interceptors of this SimpleHTTP ran as %v, registered %v", log, mineGot, mineWant)
+					}
+					if len(otherGot) != 0 && strings.Join(otherGot, " ") != strings.Join(otherWant, " ") {
+						viol("chain:other-instance-interceptors", i, "call log %v: interceptors of the other SimpleHTTP ran as %v (its registration list is %v)", log, otherGot, otherWant)
+					}
+					if transports != 1 {
+						viol("chain:transport-calls", i, "call log %v: the transport was called %d times", log, transports)
+					}
 					if err != nil {
 						viol("error:unexpected", i, "no interceptor failed but the caller got err=%v", err)
 					}
-					// header changes of every interceptor reached the transport
+					// header changes of every interceptor of this instance reached the transport
 					for _, id := range model {
-						if _, ok := seen[fmt.Sprintf("X-I%d", id)]; !ok {
+						if _, ok := seen[fmt.Sprintf("X-I%d", id)]; !ok && transports == 1 {
 							viol("header:not-reaching-transport", i, "the transport did not see X-I%d (saw %v)", id, seen)
 							break
 						}
@@ -263,6 +344,8 @@ func c18Alphabet() []c18Op {
 		{kind: "Remove", ids: []int{1}}, {kind: "Remove", ids: []int{2}}, {kind: "Clear"},
 		{kind: "SetClient", arg: 0}, {kind: "SetClient", arg: 1}, {kind: "SetClient", arg: 2}, {kind: "SetClient", arg: 3}, {kind: "SetClient", arg: 4},
 		{kind: "Req", arg: 0}, {kind: "Req", arg: 4}, {kind: "Req", arg: 7},
+		{kind: "Second", arg: 0}, {kind: "Second", arg: 1}, {kind: "Add", ids: []int{4}, inst: 1}, {kind: "Add", ids: []int{5, 4}, inst: 1},
+		{kind: "Remove", ids: []int{4}, inst: 1}, {kind: "Req", arg: 0, inst: 1}, {kind: "Req", arg: 8, inst: 1},
 	}
 }
 
@@ -285,7 +368,8 @@ func c18Scenarios(c *core.Ctx, race bool) []core.Scenario {
 						hist = append(hist, alpha[p])
 					}
 					last := len(hist)
-					hist = append(hist, c18Op{kind: "Req", arg: (n) % len(c18Verbs)}, c18Op{kind: "Req", arg: (n + 3) % len(c18Verbs)}, c18Op{kind: "Req", arg: (n + 5) % len(c18Verbs)})
+					hist = append(hist, c18Op{kind: "Req", arg: (n) % len(c18Verbs)}, c18Op{kind: "Req", arg: (n + 3) % len(c18Verbs)}, c18Op{kind: "Req", arg: (n + 5) % len(c18Verbs)},
+						c18Op{kind: "Req", arg: (n + 1) % len(c18Verbs), inst: 1})
 					// fail plan: the second probe fails at interceptor 1 or 2 (if registered, the oracle knows)
 					c18Run(c, hist, map[int]int{last + 1: 1 + n%2})
 					c.DistinctAdd(1)
@@ -318,7 +402,7 @@ func c18Scenarios(c *core.Ctx, race bool) []core.Scenario {
 				// start with 0..6 interceptors (duplicates allowed)
 				var ids []int
 				for j := 0; j < rng.Intn(7); j++ {
-					ids = append(ids, 1+rng.Intn(6))
+					ids = append(ids, 1+rng.Intn(3)) // the first instance uses interceptors 1..3, the second one 4..6
 				}
 				if len(ids) > 0 {
 					hist = append(hist, c18Op{kind: "Add", ids: ids})
@@ -326,18 +410,27 @@ func c18Scenarios(c *core.Ctx, race bool) []core.Scenario {
 				for len(hist) < 12 {
 					switch r := rng.Intn(10); {
 					case r < 2:
-						hist = append(hist, c18Op{kind: "Add", ids: []int{1 + rng.Intn(6)}})
+						hist = append(hist, c18Op{kind: "Add", ids: []int{1 + rng.Intn(3)}})
 					case r < 3:
-						hist = append(hist, c18Op{kind: "Remove", ids: []int{1 + rng.Intn(6)}})
+						hist = append(hist, c18Op{kind: "Remove", ids: []int{1 + rng.Intn(3)}})
 					case r == 3 && rng.Intn(3) == 0:
 						hist = append(hist, c18Op{kind: "Clear"})
-					case r < 6:
+					case r < 5:
 						hist = append(hist, c18Op{kind: "SetClient", arg: rng.Intn(5)})
+					case r < 6:
+						switch rng.Intn(3) {
+						case 0:
+							hist = append(hist, c18Op{kind: "Second", arg: rng.Intn(2)})
+						case 1:
+							hist = append(hist, c18Op{kind: "Add", ids: []int{4 + rng.Intn(3)}, inst: 1})
+						default:
+							hist = append(hist, c18Op{kind: "Remove", ids: []int{4 + rng.Intn(3)}, inst: 1})
+						}
 					default:
 						if rng.Intn(2) == 0 {
 							plan[len(hist)] = 1 + rng.Intn(6)
 						}
-						hist = append(hist, c18Op{kind: "Req", arg: rng.Intn(len(c18Verbs))})
+						hist = append(hist, c18Op{kind: "Req", arg: rng.Intn(len(c18Verbs)), inst: rng.Intn(2)})
 					}
 				}
 				c18Run(c, hist, plan)
@@ -362,7 +455,7 @@ func init() {
 		Meta: func(c *core.Ctx) core.Meta {
 			return core.Meta{
 				Level: "fault_enumeration",
-				Rule: "histories over {AddInterceptor (single, duplicates), RemoveInterceptor, ClearInterceptor, SetHTTPClient (same client, fresh client with nil transport, fresh client with custom transport, first client again, client whose transport is this SimpleHTTP), request (7 direct verbs + SimpleAPI GET/POST)}: every history of length <= D over a 15-letter alphabet (D=4 quick, 5 thorough) each followed by three probe requests one of which has a failing interceptor, plus PRNG histories of length 12 with 0..6 interceptors and a failing interceptor at every position. " +
+				Rule: "histories over {AddInterceptor (single, duplicates), RemoveInterceptor, ClearInterceptor, SetHTTPClient (same client, fresh client with nil transport, fresh client with custom transport, first client again, client whose transport is this SimpleHTTP), request (7 direct verbs + SimpleAPI GET/POST)}: every history of length <= D over a 22-letter alphabet (D=4 quick, 5 thorough; the alphabet includes a second SimpleHTTP instance on the same or its own http.Client, built from the same spare-capacity interceptor slice, with its own Add/Remove/requests) each followed by three probe requests one of which has a failing interceptor, plus PRNG histories of length 12 with 0..6 interceptors and a failing interceptor at every position. " +
 					"One shared call log written by stub interceptors and stub transports is compared per request with the model registration list: each interceptor once, in order, then exactly one transport call; after a failing interceptor nothing else runs and the error is surfaced; interceptors' header changes reach the transport. Runs in child processes (a recursing chain is a fatal stack overflow). distinct_nontrivial = distinct histories",
 				Assumptions: []string{"RemoveInterceptor removes every occurrence of the named pointer", "which underlying transport a re-set client ends up with is not part of the property; exactly one transport call is",
 					"http.DefaultTransport is replaced by a stub for the run (a client with a nil transport must not reach the network)"},
